@@ -91,7 +91,8 @@ def check_C04(c):
 # ------------------------------------------------------------------------ C02
 def check_C02(c):
     c.mc('MC_Interpret', 'MC_Interpret_s.cfg', workers=8, heap='6g')
-    c.mc('MC_Configure', _q(c, 'MC_ConfigureRT_q.cfg', 'MC_ConfigureRT_t.cfg'), workers=8, heap='8g')
+    # graphs decoded from trees carry complete markers: the improvisation loop never has to put a triple back (m4, m5)
+    c.mc('MC_Configure', _q(c, 'MC_ConfigureRT_q.cfg', 'MC_ConfigureRT_t.cfg'), workers=8, heap='8g', idle_ok=('m4', 'm5'))
     jobs = []
     for jn, meta, model in _export_trees(c, 'MC_Interpret', _q(c, 'MC_InterpretX_q.cfg', 'MC_InterpretX_t.cfg')):
         jobs.append(('tr_roundtrip', dict(node=jn, meta=meta, model=model)))
